@@ -76,14 +76,14 @@ def run_many(cases, timeout=10.0, procs=None):
     step = procs * 64
     with mp.Pool(procs) as pool:
         for i in range(0, len(args), step):
-            if hangs >= 24:
+            if hangs >= 4:
                 # enough runs that do not end: the verdict is settled, do not wait for thousands of watchdogs
                 out += [("skipped", None)] * (len(args) - i)
                 break
             part = pool.map(_run, args[i:i + step], chunksize=8)
             # a stalled worker is not a hanging input: believe it only after a second, generous try here
             for k, (o, m) in enumerate(part):
-                if str(o).startswith("hang") and hangs < 24:
+                if str(o).startswith("hang") and hangs < 4:
                     o2 = _run((args[i + k][0], args[i + k][1], 30.0))
                     part[k] = o2
                     hangs += str(o2[0]).startswith("hang")
